@@ -23,13 +23,32 @@
 #include <memory>
 #include <pthread.h>
 #include <thread>
+#include <chrono>
 #include <algorithm>
 #include <nlohmann/json.hpp>
 #include <tbox/base/verif_hook.h>
 #include <tbox/event/loop.h>
 #include <tbox/event/signal_event.h>
 
+#include <dlfcn.h>
 using json = nlohmann::json;
+
+// race steps: the driver interposes sigaction().  The thread that makes the unsubscribing call of a race waits inside
+// its sigaction(S, act != null) - the restore of the old disposition - until the other loop's call has finished (or 2 ms
+// have passed).  In the unchanged code the restore happens inside the critical section, the other thread is waiting for
+// the lock and the wait simply times out; code that restores outside the critical section lets the newcomer in.
+static thread_local bool tl_race_wait = false;
+static std::atomic<int> g_race_done{0};
+extern "C" int sigaction(int signo, const struct sigaction *act, struct sigaction *old) noexcept {
+    typedef int (*fn_t)(int, const struct sigaction *, struct sigaction *);
+    static fn_t next = (fn_t)dlsym(RTLD_NEXT, "sigaction");
+    if (tl_race_wait && act) {
+        tl_race_wait = false;
+        auto t0 = std::chrono::steady_clock::now();
+        while (g_race_done.load() == 0 && std::chrono::steady_clock::now() - t0 < std::chrono::milliseconds(2)) { }
+    }
+    return next(signo, act, old);
+}
 using namespace tbox::event;
 
 static const int NSIG_T = 3;
@@ -279,6 +298,7 @@ static void do_race(const json &ops, int da, int db) {
     int La = g_cfg[ea].L, Lb = g_cfg[eb].L;
     std::string oa = ops[0]["o"], ob = ops[1]["o"];
     std::atomic<int> arrived{0};
+    g_race_done.store(0);
     Latch l(2);
     auto task = [&](int L, const std::string &o, int e, int delay) {
         g_loops[L]->loop->runInLoop([&, L, o, e, delay] {
@@ -286,7 +306,10 @@ static void do_race(const json &ops, int da, int db) {
             auto t0 = std::chrono::steady_clock::now();
             while (arrived.load() < 2) if (std::chrono::steady_clock::now() - t0 > std::chrono::seconds(120)) watchdog_fail("race barrier");
             for (volatile int i = 0; i < delay * 4; ++i) { }
+            tl_race_wait = (o != "enable");
             inline_op(o, e, L, 0);
+            tl_race_wait = false;
+            if (o == "enable") g_race_done.store(1);
             l.done();
         }, "c04.race");
     };
